@@ -2,7 +2,7 @@
 import random
 from props import sync_level
 from plan_roll import ROLL_PLAN
-import fam_roll, vlib
+import fam_roll, fam_rollfin, vlib
 
 
 def crash_conv(kind):
@@ -32,9 +32,9 @@ def crash_conv(kind):
 PLAN = dict(ROLL_PLAN)
 PLAN["beh"] = {
     "quick": [("MC_Rolling", "Beh_Rolling_q.cfg", crash_conv("crash"), 300), ("MC_Rolling", "Beh_Rolling_q.cfg", crash_conv("fault"), 150),
-              ("MC_Rolling", "Beh_Rolling_q.cfg", crash_conv("revfault"), 150)],
+              ("MC_Rolling", "Beh_Rolling_q.cfg", crash_conv("revfault"), 150), ("RollFin", "Beh_RollFin.cfg", fam_rollfin.convert, 0)],
     "thorough": [("MC_Rolling", "Beh_Rolling_q.cfg", crash_conv("crash"), 0), ("MC_Rolling", "Beh_Rolling_q.cfg", crash_conv("fault"), 0),
-                 ("MC_Rolling", "Beh_Rolling_q.cfg", crash_conv("revfault"), 0),
+                 ("MC_Rolling", "Beh_Rolling_q.cfg", crash_conv("revfault"), 0), ("RollFin", "Beh_RollFin.cfg", fam_rollfin.convert, 0),
                  ("MC_Rolling", "Beh_Rolling_t.cfg", crash_conv("crash"), 4000)],
 }
 PLAN["drift"] = None
